@@ -596,9 +596,9 @@ class SymBytes(_SymSeq):
     def hex(self) -> str:
         return bytes(self).hex()
 
-    def decode(self, encoding: str = 'utf-8', errors: str = 'strict') -> Any:
+    def decode(self, encoding: Any = 'utf-8', errors: str = 'strict') -> Any:
         if self.is_concrete():
-            return bytes(self.items).decode(encoding, errors)
+            return bytes(self.items).decode(concretize_codec(encoding), errors)
         return decode_items(self.items, encoding, errors)
 
     def __repr__(self) -> str:
@@ -712,7 +712,30 @@ def _case_guard(items: list) -> None:
 
 
 # ---------------------------------------------------------------- codecs
-def decode_items(items: list, encoding: str, errors: str = 'strict') -> Any:
+KNOWN_CODECS = ['ascii', 'us-ascii', 'utf-8', 'utf8', 'latin-1', 'latin1', 'iso-8859-1',
+                'utf-7', 'utf7', 'utf-16-be']
+
+
+def concretize_codec(encoding: Any) -> str:
+    """symbolic codec name -> concrete name by forking over the modelled
+    codecs; any other name is treated as unknown (LookupError): assumption
+    A-codec (aliases of other codecs are outside the claim)"""
+    if isinstance(encoding, str):
+        return encoding
+    if encoding.is_concrete():
+        return encoding.lower_concrete()
+    for c in encoding.items:
+        if c == 0:
+            raise ValueError('embedded null character')
+    low = encoding.lower()
+    for name in KNOWN_CODECS:
+        if len(low) == len(name) and low.replace('_', '-') == name:
+            return name
+    raise LookupError('unknown encoding (symbolic name)')
+
+
+def decode_items(items: list, encoding: Any, errors: str = 'strict') -> Any:
+    encoding = concretize_codec(encoding)
     enc = encoding.lower().replace('_', '-')
     if enc in ('ascii', 'us-ascii'):
         ok = AND(*[_in_range(c, 0, 127) for c in items])
@@ -735,6 +758,12 @@ def decode_items(items: list, encoding: str, errors: str = 'strict') -> Any:
         return SymStr(items)
     if enc in ('utf-8', 'utf8'):
         return _utf8_decode(items, errors)
+    if enc in ('utf-7', 'utf7'):
+        from .codecs7 import utf7_decode
+        return SymStr(utf7_decode(items, errors))
+    if enc in ('utf-16-be', 'utf-16be'):
+        from .codecs7 import utf16be_decode
+        return SymStr(utf16be_decode(items))
     raise Unsupported('decode(%s) of symbolic bytes' % encoding)
 
 
@@ -796,7 +825,8 @@ def _utf8_decode(items: list, errors: str) -> Any:
     return SymStr(out)
 
 
-def encode_items(items: list, encoding: str, errors: str = 'strict') -> Any:
+def encode_items(items: list, encoding: Any, errors: str = 'strict') -> Any:
+    encoding = concretize_codec(encoding)
     enc = encoding.lower().replace('_', '-')
     if enc in ('ascii', 'us-ascii'):
         ok = AND(*[_in_range(c, 0, 127) for c in items])
@@ -838,6 +868,12 @@ def encode_items(items: list, encoding: str, errors: str = 'strict') -> Any:
                 out += [0xF0 + c // 262144, 0x80 + (c // 4096) % 64,
                         0x80 + (c // 64) % 64, 0x80 + c % 64]
         return SymBytes(out)
+    if enc in ('utf-7', 'utf7'):
+        from .codecs7 import utf7_encode
+        return SymBytes(utf7_encode(items))
+    if enc in ('utf-16-be', 'utf-16be'):
+        from .codecs7 import utf16be_encode
+        return SymBytes(utf16be_encode(items, errors))
     raise Unsupported('encode(%s) of symbolic str' % encoding)
 
 
@@ -870,19 +906,51 @@ def render_int(n: Any, max_digits: int | None = None) -> list:
 
 
 def parse_int(items: list) -> Any:
-    """int() of ASCII-digit items (python also accepts sign, underscores and
-    surrounding whitespace; callers in pymap pre-validate with \\d+ so only
-    digits are modelled; anything else raises ValueError like int())."""
-    if not items:
-        raise ValueError('invalid literal for int()')
-    ok = AND(*[_in_range(c, 48, 57) for c in items])
-    if not ok:
-        # sign/whitespace/underscore forms are not modelled
-        raise Unsupported('int() of symbolic non-digit text')
+    """int(bytes/str) in base 10, following CPython's grammar: optional ASCII
+    whitespace around, optional sign, digits with single underscores between
+    digits; anything else raises ValueError.  (For str, non-ASCII digits and
+    whitespace are not modelled: symbolic chars >= 128 are unsupported.)"""
+    def bad() -> None:
+        raise ValueError('invalid literal for int() with base 10')
+    ws = (9, 10, 11, 12, 13, 32)
+
+    def is_ws(c: Any) -> Any:
+        if isinstance(c, int):
+            return c in ws
+        return SymBool(z3.Or(*[c.t == v for v in ws]))
+    i, j = 0, len(items)
+    while i < j and is_ws(items[i]):
+        i += 1
+    while j > i and is_ws(items[j - 1]):
+        j -= 1
+    body = items[i:j]
+    if not body:
+        bad()
+    neg = False
+    if body[0] == 45:
+        neg = True
+        body = body[1:]
+    elif body[0] == 43:
+        body = body[1:]
+    if not body:
+        bad()
     total: Any = 0
-    for c in items:
-        total = total * 10 + (c - 48)
-    return total
+    prev_us = True  # underscore not allowed at the start
+    for c in body:
+        if _in_range(c, 48, 57):
+            total = total * 10 + (c - 48)
+            prev_us = False
+        elif c == 95:
+            if prev_us:
+                bad()
+            prev_us = True
+        else:
+            if is_sym(c) and c >= 128:
+                raise Unsupported('int() of symbolic non-ASCII text')
+            bad()
+    if prev_us:
+        bad()
+    return -total if neg else total
 
 
 # ---------------------------------------------------------------- helpers
